@@ -356,6 +356,32 @@ def chunk_twin_script(script):
     return "\n".join(keep) + "\n"
 
 
+def canon_write(op, cont):
+    """an audio write call of a C13 script (mono, 16-bit file, normalisation off) as the `w hN s16 i n <hex>` line the Lean driver reads:
+    whatever entry point the script used (typed x 4, items / frames, raw), the 16-bit items handed to the file are the same"""
+    import struct
+    try:
+        if op[0] == "wraw":
+            data = bytes.fromhex(op[3]) if len(op) > 3 else b""
+            big = cont in ("aiff", "caf", "rifx")
+            vals = [struct.unpack(">H" if big else "<H", data[i:i + 2])[0] for i in range(0, len(data) - 1, 2)]
+            return ["w", op[1], "s16", "i", str(len(vals)), "".join("%04x" % v for v in vals)]
+        if op[0] == "w" and op[2] != "s16":
+            ty, hx = op[2], (op[5] if len(op) > 5 else "")
+            d = {"s32": 8, "f32": 8, "f64": 16}[ty]
+            items = [hx[i:i + d] for i in range(0, len(hx), d)]
+            if ty == "s32":
+                vals = [int(x, 16) >> 16 for x in items]
+            elif ty == "f32":
+                vals = [int(struct.unpack(">f", bytes.fromhex(x))[0]) & 0xffff for x in items]
+            else:
+                vals = [int(struct.unpack(">d", bytes.fromhex(x))[0]) & 0xffff for x in items]
+            return ["w", op[1], "s16", "i", str(len(vals)), "".join("%04x" % v for v in vals)]
+    except (ValueError, KeyError, struct.error, OverflowError):
+        pass
+    return op
+
+
 def chunk_record_text(name, cont, meta, script, lines, twin=None):
     L = ["== " + name, chunk_geom(cont, meta)]
     n = 0
@@ -365,6 +391,11 @@ def chunk_record_text(name, cont, meta, script, lines, twin=None):
         for op, got in C.split_ops(sc, ls):
             if op[0] == "<trailing>":
                 continue
+            if op[0] in ("w", "wraw"):
+                op = canon_write(list(op), cont)
+                if op[0] == "w" and got and op[2] == "s16":
+                    # a raw call answers in bytes, a typed one in its own unit: the Lean record counts 16-bit items of a mono file
+                    got = [re.sub(r"^ret=(\d+)", lambda m, o=op: "ret=%s" % (o[4] if int(m.group(1)) in (int(o[4]), 2 * int(o[4])) else m.group(1)), g) for g in got]
             L.append(" ".join(op))
             if not got:
                 L.append("TIMEOUT transcript-ends-here")
